@@ -1139,7 +1139,14 @@ class Engine:
         if k == "array":
             return Agg({i: self.eval_operand(ctx, f, o) for i, o in enumerate(rv[1])})
         if k == "repeat":
-            n = concrete(self.eval_const(ctx, f, rv[2]))
+            cnt = str(rv[2]).strip()
+            if re.match(r"^\d+$", cnt):
+                n = int(cnt)
+            else:
+                cv = self.eval_const(ctx, f, re.sub(r"^const ", "", cnt))
+                if not z3.is_expr(cv):
+                    raise Unsupported(f"array repeat count {cnt}")
+                n = concrete(cv)
             v = self.eval_operand(ctx, f, rv[1])
             return Agg({i: clone(v) for i in range(n)})
         if k == "closure":
